@@ -5,6 +5,16 @@ import json,sys
 pid=sys.argv[1]; suffix=sys.argv[2] if len(sys.argv)>2 else "n"
 p=[json.loads(l) for l in open('/verif/properties.jsonl') if json.loads(l)['id']==pid][0]
 wt=f"/tmp/wt/{pid}{suffix}"
+import glob,re
+earlier=[]
+for d in sorted(glob.glob(f'/verif/neutral/{pid}-refactor-*/')):
+    diff=open(d+'patch.diff').read()
+    funcs=sorted(set(f.strip() for f in re.findall(r'^@@[^@]*@@ ?(.*)$',diff,re.M) if f.strip()))
+    files=sorted(set(re.findall(r'^\+\+\+ b/(\S+)',diff,re.M)))
+    earlier.append(f"files {', '.join(files)}; near {' / '.join(funcs)[:400]}")
+EARLIER=""
+if earlier:
+    EARLIER="\n\nAn earlier volunteer already produced such a refactoring touching: "+" || ".join(earlier)+". Produce something DIFFERENT: prefer other functions that implement the property (callers, siblings for other chains, storage accessors, the serialization helpers it relies on), and where you must touch the same function use other kinds of rewrite than they probably used — in particular try at least two of: moving a guard or a block into (or out of) a small helper, early-return vs nested-if restructuring, replacing a flag variable by direct returns (or the reverse), changing loop form, replacing a comparison by an exactly equivalent one, reordering independent checks that return the SAME error value or that cannot both fail... but only when provably equivalent.\n"
 print(f"""You are helping test a verification effort for the Go repository polynetwork/poly (a cross-chain relay-chain node). You have your OWN scratch git worktree of it at {wt}. Work ONLY inside {wt}. Never touch /repo or /verif, and do not read anything under /verif.
 
 Here is a semantic property the code base satisfies:
@@ -23,6 +33,7 @@ YOUR TASK: produce a BEHAVIOUR-PRESERVING REFACTORING of the non-test Go code th
   - replace `a.Cmp(b) >= 0` by `a.Cmp(b) != -1`, `len(x) == 0` by `len(x) < 1`, `i += 1` by `i++`, and similar exact equivalences.
 Every edit must be provably equivalent for ALL inputs (same results, same errors returned or not, same storage writes in the same order, same locking). Do NOT fix bugs, do NOT change error-message texts that tests might match, do NOT change exported signatures, do NOT touch _test.go files or go.mod.
 
+{EARLIER}
 Then CHECK: (a) the changed packages compile (`go build ./<pkg>/...`; packages `native/service`, `native/service/cross_chain_manager`, `native/service/header_sync` themselves and the `harmony` sub-packages cannot be compiled in this sandbox because a cgo header is missing — if you edit them be extra careful and check with `gofmt -e`); (b) the existing tests of the touched packages give the same results as before (`go test -vet=off -count=1 ./<pkg>/...`; some tests fail already on the unchanged tree — only differences matter; compare by saving `git diff > /tmp/{pid}{suffix}.patch`, `git apply -R`, re-apply with `git apply`; NEVER use git stash).
 
 Environment: no network. Always: `export GOFLAGS=-mod=mod GOPROXY=off GOSUMDB=off GOTOOLCHAIN=local`.
